@@ -2,6 +2,7 @@ from __future__ import annotations
 
 import functools
 import operator
+import re
 import typing as t
 from abc import abstractmethod
 from dataclasses import dataclass, field, replace
@@ -45,6 +46,10 @@ _VERSION_VALUED_MARKER_NAMES = {
     "python_full_version",
     "python_version",
 }
+
+
+# [N!]N(.N)*: the epoch and release segment at the start of a version text
+_RELEASE_RE = re.compile(r"(?:\d+!)?\d+(?:\.\d+)*")
 
 
 class UndefinedComparison(ValueError):
@@ -121,14 +126,20 @@ class MarkerExpression(SingleMarker):
             pkg_spec = next(iter(specifier.to_specifierset()))
             pkg_version = pkg_spec.version
             if (
-                (dot_num := pkg_version.count(".")) < 2
-                and name == "python_full_version"
+                name == "python_full_version"
                 # padding would change the meaning of ~=X.Y and corrupt X.*
                 and pkg_spec.operator != "~="
                 and not pkg_version.endswith(".*")
+                and (release := _RELEASE_RE.match(pkg_version)) is not None
+                and (dot_num := release.group().count(".")) < 2
             ):
-                for _ in range(2 - dot_num):
-                    pkg_version += ".0"
+                # pad the release segment itself: appending to the whole text
+                # would corrupt a pre/post/dev suffix ("3.9a1" -> "3.9a1.0")
+                pkg_version = (
+                    release.group()
+                    + ".0" * (2 - dot_num)
+                    + pkg_version[release.end() :]
+                )
             return MarkerExpression(
                 name, pkg_spec.operator, pkg_version, _specifier=specifier
             )
